@@ -61,7 +61,7 @@ def make(pid, ob, ks, obligations, spec):
     if ob["id"].startswith("kani:"):
         harness = ob["id"][5:]
     else:
-        fn = ob["id"].split(":")[-1]
+        fn = ob["id"].split(":", 2)[-1]
         harness = (spec.get("pairs") or {}).get(fn)
         rec["paired_kani_harness"] = harness
         rec["verus_output"] = ob.get("detail", [])
